@@ -98,6 +98,10 @@ impl<T> SharedFd<T> {
                 })
                 .await
             } else {
+                // Somebody else is already waiting for the descriptor. Release our
+                // reference the way a dropped handle does, so that the waiter is woken
+                // if we were the last other holder.
+                drop(Self(inner));
                 None
             }
         }
